@@ -56,12 +56,11 @@ class TH:
         """vertices named by the keys of nbmap; universe of `members` (or None).  The individuals are built once
         per (map, vertex class) and re-used: traversals are read-only (C13 decides that)."""
         h = self.h
-        key = (id(nbmap), vcls)
-        if getattr(self, "_key", None) != key:
+        if getattr(self, "_keymap", None) is not nbmap or getattr(self, "_keycls", None) != vcls:
             h.reset()
             self.V = {n: h.vertex(n, vcls) for n in nbmap}
             self._unis = {}
-            self._key = key
+            self._keymap, self._keycls = nbmap, vcls
             self._clean = {n: dict(v.fields) for n, v in self.V.items()}
         for n, v in self.V.items():
             v.fields.clear()
